@@ -2,7 +2,9 @@
   C16 — Process tomography and gate fidelity agree with the library's own references.
 
   Only the property theorems and their non-vacuity examples live here; proofs are in
-  LW/Proofs/{TomoLift,C16Choi,C16LI,C16Main}.lean (on top of the C15 development).
+  LW/Proofs/{TomoLift,C16Choi,C16LI,C16Main,C16Alpha,C16GateFid,C16MLE,C16Final}.lean and, for the
+  list-level MLE clause, LW/Proofs/{C16MLEList,C16MLEList2,C16F49,C16Cex,C16MLEExample}.lean (on top
+  of the C15 development).
 
   Model: LW.Model.ProcTomo.  `choiFromUnitary` and `pVec` follow the REPAIRED code (findings F9,
   F8); the pinned variants are `choiFromUnitaryPinned`, `pVecPinned`.
@@ -21,12 +23,26 @@
     * each pair of rows of the MLE model matrix applied to the reference Choi matrix gives the
       noiseless outcome probabilities `(tr ρ' ± tr(Pρ'))/(2·4ⁿ)`, `ρ' = VρV†`
       (`mle_model_consistent_partial`).
-  NOT proved: the list-level packaging of the MLE statement (`mle_model_consistent_statement`,
-  checked exactly by the driver: `consistent`), and nothing about the projected-gradient optimiser,
-  `eigh`, `pinv`, `sqrtm` themselves (externals; DESIGN §10).
+  MLE data-model consistency, list level (the Python lists `_p_vec(choi)` and `_n_vec_from_data`):
+    * PROVED (`mle_model_consistent_corrected`): on noiseless data of a unitary `V`, for every order
+      of the settings, the data vector is `_p_vec(choi_from_unitary(V))` times a non-zero constant
+      (`4ⁿ/len(data)`) — in every field in which `len(data) = 6ⁿ·(4ⁿ-1)` is non-zero, in particular
+      in characteristic zero (`mle_model_consistent_charZero`), hence over the complex numbers the
+      code uses.
+    * FOUND FALSE: the statement as first written (`mle_model_consistent_statement`, kept below)
+      quantified over ALL fields with `2 ≠ 0`.  Witness (`mle_model_consistent_statement_false`):
+      the field with 49 elements `𝔽₇[i]` (`i² = -1`, `h = 2`, `2h² = 1`), three qubits, `V = 1`:
+      `len(data) = 6³·63 = 13608 = 7·1944` is zero there, `_n_vec_from_data` divides by it
+      (`x/0 = 0`) and returns the zero vector, which is no non-zero multiple of `_p_vec`.  The extra
+      hypothesis is also necessary: whenever `len(data) = 0` in the field the conclusion fails
+      (`mle_count_hypothesis_necessary`).  This is a defect of the over-general statement, not of
+      the library (Python never leaves characteristic zero).
+  NOT covered: the projected-gradient optimiser, `eigh`, `pinv`, `sqrtm` themselves (externals;
+  DESIGN §10).
 -/
 import Mathlib.Data.Complex.Basic
 import LW.Proofs.C16Final
+import LW.Proofs.C16MLEExample
 
 open scoped BigOperators
 
@@ -117,8 +133,8 @@ theorem alpha_expands_pauli {i : K} (h2 : (1 + 1 : K) ≠ 0) (k : Nat) (qs : Mea
 reference Choi matrix are `(tr ρ' ± tr(P ρ'))/(2·4ⁿ)` with `ρ' = V ρ_in V†` — the noiseless
 probabilities of the two outcome classes, which is what `_n_vec_from_data` builds from the
 noiseless expectation value `tr(Pρ')/tr ρ'` (C15 `expectation_eq_trace`) up to the constant
-`len(data)·tr ρ'/4ⁿ`.  PARTIAL: row level; the packaging into the two Python lists is
-`mle_model_consistent_statement`. -/
+`len(data)·tr ρ'/4ⁿ`.  Row level; the packaging into the two Python lists is
+`mle_model_consistent_corrected`. -/
 theorem mle_model_consistent_partial (i : K) (n : Nat) (V : M K) (hV : V.n = 2 ^ n) (ins : Ins)
     (hins : ins.length = n) (meas : Meas) (hm : meas.length = n) :
     pairing (aRowMats i n ins meas).1 (choiFromUnitary V)
@@ -129,10 +145,11 @@ theorem mle_model_consistent_partial (i : K) (n : Nat) (V : M K) (hV : V.n = 2 ^
             + -trPauli i (channel V (rhoKron i ins)) meas)) :=
   mle_rows i n V hV ins hins meas hm
 
-/-- full list-level statement of the MLE data-model consistency (NOT proved as stated; the row
-identity is `mle_model_consistent_partial`; checked exactly by the driver on generated cases):
-the vector of model probabilities of the reference Choi matrix is proportional to the data vector,
-so the true Choi matrix is a global minimiser of the likelihood cost handed to the optimiser -/
+/-- list-level statement of the MLE data-model consistency as ORIGINALLY written, for all fields
+with `2 ≠ 0`: the vector of model probabilities of the reference Choi matrix is proportional to the
+data vector, so the true Choi matrix is a global minimiser of the likelihood cost handed to the
+optimiser.  FALSE in positive characteristic (`mle_model_consistent_statement_false`); true with the
+hypothesis `len(data) ≠ 0` (`mle_model_consistent_corrected`). -/
 def mle_model_consistent_statement : Prop :=
   ∀ (K : Type) [Field K] [StarRing K] [DecidableEq K] (i h : K), Consts i h → (1 + 1 : K) ≠ 0 →
     ∀ (n : Nat) (V : M K) (order : List Meas) (rs : List (Res K)) (nv : List K), 0 < n →
@@ -141,6 +158,52 @@ def mle_model_consistent_statement : Prop :=
       order.map fun s => bornTable i h n (channel V (rhoKron i ins)) s) →
     (do let data ← mleData n order rs; nVec n data) = .ok nv →
     ∃ c : K, c ≠ 0 ∧ (pVec i n (choiFromUnitary V)).map (· * c) = nv
+
+/-- The original statement is false.  Witness: `K = 𝔽₇[i]` (49 elements; `i² = -1`, `conj i = -i`,
+`h = 2` with `2h² = 8 = 1`, `2 ≠ 0`), `n = 3`, `V = 1`, `order = requiredSet 3`: the number of data
+entries `6³·(4³-1) = 13608` is divisible by 7, so `_n_vec_from_data` is the zero vector, whereas the
+two entries of `_p_vec` for input `Z+Z+Z+` and measurement `ZZZ` sum to `4⁻³ ≠ 0`. -/
+theorem mle_model_consistent_statement_false : ¬ mle_model_consistent_statement :=
+  mle_statement_original_false
+
+/-- MLE data-model consistency, list level, CORRECTED: on noiseless data of a unitary `V` (for
+every order in which the settings are requested) the data vector `_n_vec_from_data` builds is the
+vector of model probabilities `_p_vec(choi_from_unitary(V))` times a non-zero constant — in every
+field in which the number of data entries `len(data) = 6ⁿ·(4ⁿ-1)` is non-zero (the only hypothesis
+added to `mle_model_consistent_statement`; necessary by `mle_count_hypothesis_necessary`). -/
+theorem mle_model_consistent_corrected {i h : K} (hc : Consts i h) (h2 : (1 + 1 : K) ≠ 0) (n : Nat)
+    (V : M K) (order : List Meas) (rs : List (Res K)) (nv : List K) (hn : 0 < n)
+    (hV : V.n = 2 ^ n) (hU : V.dagger.mul V = M.one (2 ^ n)) (hord : order.Perm (requiredSet n))
+    (hrs : rs = (combineAll tomoInputsMLE n).flatMap (fun ins =>
+      order.map fun s => bornTable i h n (channel V (rhoKron i ins)) s))
+    (hnv : (do let data ← mleData n order rs; nVec n data) = .ok nv)
+    (hlen : ((6 ^ n * (4 ^ n - 1) : Nat) : K) ≠ 0) :
+    ∃ c : K, c ≠ 0 ∧ (pVec i n (choiFromUnitary V)).map (· * c) = nv :=
+  mle_model_consistent_nz hc h2 n V order rs nv hn hV hU hord hrs hnv hlen
+
+/-- … in particular in characteristic zero, e.g. over ℂ: exactly the original statement with
+`[CharZero K]` added. -/
+theorem mle_model_consistent_charZero [CharZero K] {i h : K} (hc : Consts i h) (h2 : (1 + 1 : K) ≠ 0)
+    (n : Nat) (V : M K) (order : List Meas) (rs : List (Res K)) (nv : List K) (hn : 0 < n)
+    (hV : V.n = 2 ^ n) (hU : V.dagger.mul V = M.one (2 ^ n)) (hord : order.Perm (requiredSet n))
+    (hrs : rs = (combineAll tomoInputsMLE n).flatMap (fun ins =>
+      order.map fun s => bornTable i h n (channel V (rhoKron i ins)) s))
+    (hnv : (do let data ← mleData n order rs; nVec n data) = .ok nv) :
+    ∃ c : K, c ≠ 0 ∧ (pVec i n (choiFromUnitary V)).map (· * c) = nv :=
+  mle_model_consistent_char0 hc h2 n V order rs nv hn hV hU hord hrs hnv
+
+/-- the data pipeline does succeed on noiseless data (so `hnv` above is satisfiable for every
+unitary, order and field), and the hypothesis `len(data) ≠ 0` is necessary: if the count vanishes
+in `K`, the vector the pipeline returns is NOT a non-zero multiple of the model probabilities. -/
+theorem mle_count_hypothesis_necessary {i h : K} (hc : Consts i h) (h2 : (1 + 1 : K) ≠ 0) (n : Nat)
+    (hn : 0 < n) (V : M K) (hV : V.n = 2 ^ n) (hU : V.dagger.mul V = M.one (2 ^ n))
+    (order : List Meas) (hord : order.Perm (requiredSet n))
+    (hzero : ((6 ^ n * (4 ^ n - 1) : Nat) : K) = 0) :
+    ∃ nv, (do let data ← mleData n order ((combineAll tomoInputsMLE n).flatMap (fun ins =>
+              order.map fun s => bornTable i h n (channel V (rhoKron i ins)) s)); nVec n data)
+        = .ok nv ∧
+      ¬ ∃ c : K, c ≠ 0 ∧ (pVec i n (choiFromUnitary V)).map (· * c) = nv :=
+  mle_count_necessary hc h2 n hn V hV hU order hord hzero
 
 /-! ### non-vacuity: the hypotheses are met over ℂ by a complex, non-symmetric unitary -/
 
@@ -161,6 +224,20 @@ example (T : M ℂ) (hT : T.n = 2) :
           (rhoKron Complex.I ins)))
       = avgGateFidelity 1 T (mat2 (3 / 5 : ℂ) (-4 / 5 * Complex.I) (4 / 5) (3 / 5 * Complex.I)) :=
   gate_fidelity_formula Complex.I_mul_I Complex.conj_I (by norm_num) 0 T _ hT rfl
+
+/-- `mle_model_consistent_corrected` / `_charZero` are not vacuous: over ℂ, one qubit, the same `V`
+(`exV`), settings in the order `requiredSet 1`: the data pipeline succeeds on the noiseless tables
+(first conjunct: every hypothesis of the theorem is met, with `nv` the explicit vector `nvOf …`) and
+that vector is a non-zero multiple of `_p_vec(choi_from_unitary(V))`. -/
+example :
+    (do let data ← mleData 1 (requiredSet 1) ((combineAll tomoInputsMLE 1).flatMap (fun ins =>
+          (requiredSet 1).map fun s =>
+            bornTable Complex.I (((Real.sqrt 2)⁻¹ : ℝ) : ℂ) 1 (channel exV (rhoKron Complex.I ins)) s));
+        nVec 1 data)
+      = .ok (nvOf Complex.I exV 1 (((6 ^ 1 * (4 ^ 1 - 1) : Nat)) : ℂ)) ∧
+    ∃ c : ℂ, c ≠ 0 ∧ (pVec Complex.I 1 (choiFromUnitary exV)).map (· * c)
+      = nvOf Complex.I exV 1 (((6 ^ 1 * (4 ^ 1 - 1) : Nat)) : ℂ) :=
+  mle_example_complex
 
 end
 
